@@ -1,39 +1,38 @@
 #!/usr/bin/env python
 """Bounded stand-in (C01 C02 C03 C05 C06): brute-force check of the rl4co routing environments against independent oracles.
 
-Envs (rl4co/envs/routing/*/env.py): TSP, ATSP, CVRP, CVRPTW, SDVRP, SVRP, OP, PCTSP, SPCTSP, PDP (free / forced depot start),
-mTSP (minmax, sum), MDCPDP (minsum, minmax, lateness, lateness_square; 1 and 2 depots; generator format capacity [B,1] and
-per-depot capacity), MTVRP variants CVRP, OVRP, VRPB, VRPL, VRPTW, OVRPBLTW.
+Envs (rl4co/envs/routing/*/env.py): TSP, ATSP, CVRP, CVRPTW, SDVRP, SVRP, OP, PCTSP, SPCTSP, PDP (free / forced depot start), mTSP (minmax, sum),
+MDCPDP (minsum, minmax, lateness, lateness_square; 1 and 2 depots; generator format capacity [B,1] and per-depot capacity), MTVRP variants CVRP, OVRP,
+VRPB, VRPL, VRPTW, OVRPBLTW. Envs are built with check_solution=False; the checker is called separately.
 
-Method. For every instance ALL action sequences admitted by `action_mask` are enumerated from `reset` (level-by-level DFS
-frontier: each row of the stepped batch is the same instance in a different state; finished rows stay in the batch and are
-padded with their first offered action until the last row finishes). Sampled complete sequences are replayed at batch size 1
-("solo") and in mixed batches of 2-3 different instances (padding after finishing). The oracles (classes VRP / Perm / MDCPDP)
-are float64 state machines written from the problem definitions on the original instance data; they never call the library.
+Method. For every instance ALL action sequences admitted by `action_mask` are enumerated from `reset` (level-by-level DFS frontier: each row of the
+stepped batch is the same instance in a different state; finished rows stay in the batch and are padded with their first offered action until the last
+row finishes). Sampled complete sequences are replayed at batch size 1 ("solo") and in mixed batches of 2-3 different instances (padding after
+finishing). The oracles (classes VRP / Perm / MDCPDP) are float64 state machines written from the problem definitions on the original instance data;
+they never call the library. `brute` enumerates ALL action sequences with the oracle alone.
 
-Clauses (name = "<prop>.<env>.<class>"; oracle in brackets):
- C01 infeasible-<why>       every completed mask-confined sequence is feasible [oracle replay: each customer once / demand fully
-                            served, load<=capacity, service start within window with waiting and reset at the depot, pickup before
-                            delivery, skill<=technician, OP length incl. return<=max_length, route limit, linehaul before backhaul,
-                            open routes, PCTSP prize>=1 or all visited, mTSP<=num_agents subtours, MDCPDP same vehicle, carry<=cap]
+Clauses, named "<prop>.<env config>.<class>[@<hand-made instance>]" (oracle in brackets):
+ C01 infeasible-<why>     every completed mask-confined sequence is feasible [oracle replay: each customer once / demand fully served, load<=capacity,
+                          service start within the window with waiting and reset at the depot, pickup before delivery, skill<=technician, OP length
+                          incl. return<=max_length, route limit, linehaul before backhaul, open routes, PCTSP prize>=1 or all visited, mTSP<=num_agents
+                          subtours, MDCPDP same vehicle and carried orders<=capacity]
  C02 dead-end, finished-row-no-action, finished-became-unfinished, step-bound, step-raises[-on-padding], replay-*.done-mismatch
-                            every reachable unfinished state offers an action, finished rows keep one and stay finished, episode
-                            length <= bound [n | 2n+1 | 2(n+loads)+1 | n+2 | n+agents-1 | n+techs | n+2*depots]
+                          every reachable unfinished state offers an action, finished rows keep one and stay finished, episode length <= bound
+                          [n | 2n+1 | 2(n+vehicle loads)+1 | n+2 | n+agents-1 | n+techs | n+2*depots]
  C03 reward-at-done, reward-after-padding, reward-shape, reward-raises, replay-<solo|mixed>.reward*
-                            env.get_reward(td, actions) == oracle objective (1e-4 relative), shape [batch] [oracle objective: closed
-                            tour length, open routes not charged for the return, OP prize, PCTSP length+penalties of unvisited, SVRP
-                            cost-weighted length, mTSP longest / summed subtour, MDCPDP per-depot lengths / lateness]
- C05 exact-<fill|tw|len|prize|skill>-hidden, feasible-hidden[-<class>], optimum-unreachable
-                            canonical set of mask-reachable solutions == set of ALL feasible solutions [oracle DFS over all action
-                            sequences] modulo the documented pruning of consecutive depot visits; best mask reward == optimum
- C06 rejects-mask-solution, rejects-feasible, accepts-<fault>, replay-*.rejects-feasible
-                            check_solution_validity accepts every mask-generated and every brute-force feasible solution (with and
-                            without final depot return) and raises for every single-edit corruption (delete / adjacent swap /
-                            substitute / insert) that the oracle classifies infeasible by more than 1e-3 [fault = dup, missing,
-                            missing-truncated, cap, tw, prec, depot, len, prize, skill, order]
-Tolerances: on generator (float) instances solutions whose tightest constraint slack is within 1e-5 are ambiguous and ignored by
+                          env.get_reward(td, actions) == oracle objective (1e-4 relative) with shape [batch] [closed tour length, open routes not charged
+                          for the return, OP prize, PCTSP length+penalties of unvisited, SVRP cost-weighted length, mTSP longest / summed subtour,
+                          MDCPDP per-depot lengths / lateness]
+ C05 exact-<fill|tw|len|prize|skill>-hidden, feasible-hidden[-<class>], optimum-unreachable, replay-*.action-not-offered
+                          canonical set of mask-reachable solutions == set of ALL feasible solutions [brute] modulo the documented pruning of
+                          consecutive depot visits; best mask-reachable objective == brute-force optimum
+ C06 rejects-mask-solution:<msg>, rejects-feasible:<msg>, accepts-<fault>, replay-*.rejects-feasible:<msg>
+                          check_solution_validity accepts every mask-generated and every brute-force feasible solution (with and without final depot
+                          return) and raises for every single-edit corruption (delete / adjacent swap / substitute / insert) that the oracle
+                          classifies infeasible by more than 1e-3 [fault = dup, missing, missing-truncated, cap, tw, prec, depot, len, prize, skill, order]
+Tolerances: on generator (float) instances solutions whose tightest constraint slack is within 1e-5 (SDVRP residues 1e-6) are ambiguous and ignored by
 C05; hand-made instances use dyadic 3-4-5 grid coordinates / integer data, so equality is exact and a slack-0 solution must be offered.
-Bound: see `bound` in main (sizes, instances, seeds per tier). KNOWN lists confirmed defects of the unchanged library.
+Bound: see `bound` in main (sizes, instances, seeds per tier). KNOWN lists confirmed defects of the unchanged library (reported via rep.known).
 """
 import math
 import os
@@ -69,12 +68,12 @@ known("CVRPTW checker truncates arrival with .int(): depot(0,0) c1(3,.5) c2(0,4)
 known("CVRPTW checker reads the depot deadline of batch row 0 for all rows: batch [max_time 40, max_time 480] rejects valid rows",
       "C06.cvrptw.replay-mixed.rejects-feasible:vehicle-cannot-perform-service-and")
 known("SDVRP float32: demands 2,6,4 / capacity 12, single route [1,2,3] fills the vehicle exactly but leaves a residue 3e-8 at customer 3: not done, extra trip [1,2,3,0,3] forced",
-      "C01.sdvrp.infeasible-dup@thirds-12", "C05.sdvrp.exact-fill-hidden", "C05.sdvrp.optimum-unreachable@thirds-12")
-known("CVRP mask float32: demands 8,6,2,4 / capacity 20, after [1,2,3] customer 4 (exact fill) is masked (0.8000001+0.2 > 1)", "C05.cvrp.exact-fill-hidden")
+      "C01.sdvrp.infeasible-dup@thirds-12", "C05.sdvrp.exact-fill-hidden@thirds-12", "C05.sdvrp.optimum-unreachable@thirds-12")
+known("CVRP mask float32: demands 8,6,2,4 / capacity 20, after [1,2,3] customer 4 (exact fill) is masked (0.8000001+0.2 > 1)", "C05.cvrp.exact-fill-hidden@exact-fill-20")
 known("SVRP mask forbids leaving the depot idle: a technician that can serve someone cannot be skipped, cheaper solutions such as [0,1,2,0,3] are unreachable",
-      "C05.svrp.feasible-hidden-skip-technician", "C05.svrp.optimum-unreachable", "C05.svrp.optimum-unreachable@skip-tech", "C05.svrp.optimum-unreachable@tech0-all")
+      *[f"C05.svrp.{c}{a}" for c in ("feasible-hidden-skip-technician", "optimum-unreachable") for a in ("", "@skip-tech", "@tech0-all")])
 known("SVRP checker never checks the segment after the last depot visit: techs [1,2,3], skills [1,2,3], actions [1,2,3] accepted", "C06.svrp.accepts-skill")
-known("OP reset subtracts 1e-6 from max_length: a tour of length exactly max_length (grid tour 1.75) is masked", "C05.op.exact-len-hidden", "C05.op.optimum-unreachable@len-equality")
+known("OP reset subtracts 1e-6 from max_length: a tour of length exactly max_length (grid tour 1.75) is masked", "C05.op.exact-len-hidden@len-equality", "C05.op.optimum-unreachable@len-equality")
 known("mTSP minmax: a padding depot step after done re-adds the return leg; reward has shape () at batch size 1",
       "C03.mtsp-minmax.reward-after-padding", "C03.mtsp-minmax.replay-mixed.reward", "C03.mtsp-minmax.replay-solo.reward-shape")
 known("mTSP cost_type='sum': get_reward raises unless len(actions)==num_loc, else returns the closed loop over the action list instead of the sum of subtours",
@@ -85,10 +84,10 @@ known("MDCPDP reward_mode='lateness_square' (documented) raises NotImplementedEr
       *[f"C03.{e}.{c}" for e in _MD if "square" in e for c in ("reward-raises", "replay-solo.reward-raises", "replay-mixed.reward-raises")])
 known("MDCPDP infers num_depot from capacity.shape[-1] but the generator emits capacity [B,1]: with num_depot=2 the second depot is treated as a pickup "
       "(mask-confined [0,1,2,3] switches depot with an open route); with per-depot capacity the new depot's capacity is never used",
-      *[f"{c}.{e}.{x}" for e in _MD if "2depot" in e for c, x in (("C01", "infeasible-depot"), ("C01", "infeasible-depot@gen-format-cap1"), ("C05", "exact-fill-hidden"), ("C05", "feasible-hidden"),
-        ("C05", "optimum-unreachable"), ("C05", "optimum-unreachable@gen-format-cap1"), ("C05", "optimum-unreachable@per-depot-cap"))])
+      *[f"{c}.{e}.{x}{a}" for e in _MD if "2depot" in e for a in ("", "@gen-format-cap1", "@per-depot-cap")
+        for c, x in (("C01", "infeasible-depot"), ("C05", "exact-fill-hidden"), ("C05", "feasible-hidden"), ("C05", "optimum-unreachable")) if (c, a) != ("C01", "@per-depot-cap")])
 known("MTVRP mask uses strict '<' on window ends (checker '<='): arrival exactly at the window end is masked; if that is the only way to serve a customer the episode never ends",
-      "C05.mtvrp-vrptw.exact-tw-hidden", "C05.mtvrp-vrptw.exact-fill+tw-hidden", "C05.mtvrp-ovrpbltw.exact-fill+tw-hidden", "C05.mtvrp-ovrpbltw.exact-tw-hidden",
+      *[f"C05.mtvrp-{v}.exact-{c}-hidden@{a}" for v, a in (("vrptw", "grid-equalities"), ("vrptw", "tw-equality-only"), ("ovrpbltw", "grid-equalities")) for c in ("tw", "fill+tw")],
       "C02.mtvrp-vrptw.step-bound@tw-equality-only", "C05.mtvrp-vrptw.optimum-unreachable@tw-equality-only",
       "C05.mtvrp-vrptw.optimum-unreachable@grid-equalities", "C05.mtvrp-ovrpbltw.optimum-unreachable@grid-equalities")
 known("MTVRP checker does not check linehaul-before-backhaul: [.., backhaul, linehaul, ..] in one route accepted", "C06.mtvrp-vrpb.accepts-order", "C06.mtvrp-ovrpbltw.accepts-order")
@@ -105,20 +104,11 @@ def tight(st, slack, why):  # record the tightest numeric constraint(s) of a sta
 
 
 class Oracle:  # interface defaults
-    def finalize(s, st):
-        return st if s.complete(st) else "missing"
-
-    def prune(s, st, a):
-        return False
-
-    def forms(s, c):  # action sequences encoding canonical solution c (for the checker)
-        return [list(c)]
-
-    def hidden_class(s, c):
-        return ""
-
-    def explain(s, st, r):  # failure class of a reward mismatch (for clause names)
-        return ""
+    def finalize(s, st): return st if s.complete(st) else "missing"
+    def prune(s, st, a): return False
+    def forms(s, c): return [list(c)]  # action sequences encoding canonical solution c (for the checker)
+    def hidden_class(s, c): return ""
+    def explain(s, st, r): return ""  # failure class of a reward mismatch (for clause names)
 
 
 class VRP(Oracle):
@@ -137,14 +127,9 @@ class VRP(Oracle):
         return dict(pos=0, vis=frozenset(), rem=tuple(s.dem) if s.split else (), load=0.0, loadb=0.0, t=0.0, rlen=0.0, k=0, bhs=False, total=0.0,
                     worst=0.0, prize=0.0, closed=False, slack=INF, why="")
 
-    def served(s, st):
-        return all(r <= s.eps() for r in st["rem"][1:]) if s.split else len(st["vis"]) == s.n
-
-    def eps(s):  # SDVRP: residual demand / free capacity below this is rounding noise (ambiguous on float instances)
-        return 1e-9 if s.exact else 1e-6
-
-    def complete(s, st):
-        return st["closed"] if s.ends else s.served(st)
+    def served(s, st): return all(r <= s.eps() for r in st["rem"][1:]) if s.split else len(st["vis"]) == s.n
+    def eps(s): return 1e-9 if s.exact else 1e-6  # SDVRP: residual demand / free capacity below this is rounding noise (ambiguous on float instances)
+    def complete(s, st): return st["closed"] if s.ends else s.served(st)
 
     def step(s, st, a):
         st = dict(st)
@@ -200,8 +185,7 @@ class VRP(Oracle):
             tight(st, s.agents - k - 1, "agents")
         return st
 
-    def finalize(s, st):
-        return "missing" if not s.complete(st) else s.step(st, 0) if (not s.ends and st["pos"] != 0) else st
+    def finalize(s, st): return "missing" if not s.complete(st) else s.step(st, 0) if (not s.ends and st["pos"] != 0) else st
 
     def obj(s, st):
         if s.ends:
@@ -217,8 +201,7 @@ class VRP(Oracle):
             q.pop()
         return tuple(q) if s.tech or s.ends else tuple(a for i, a in enumerate(q) if a or (i and q[i - 1]))
 
-    def forms(s, c):
-        return [list(c) + [0]] if s.ends else [list(c), list(c) + [0]]
+    def forms(s, c): return [list(c) + [0]] if s.ends else [list(c), list(c) + [0]]
 
     def hidden_class(s, c):
         if s.tech:  # a technician that could serve an open customer is skipped
@@ -239,8 +222,7 @@ class Perm(Oracle):
         s.kind, s.D, s.n, s.na, s.force, s.h = kind, D, len(D), len(D), force, (len(D) - 1) // 2
         s.bound = s.n if (kind != "pdp" or force) else s.n - 1
 
-    def init(s):
-        return dict(seq=(), slack=INF, why="")
+    def init(s): return dict(seq=(), slack=INF, why="")
 
     def step(s, st, a):
         q = st["seq"]
@@ -250,15 +232,13 @@ class Perm(Oracle):
             return "depot" if (a == 0) != (s.force and not q) else "prec"
         return dict(st, seq=q + (a,))
 
-    def complete(s, st):
-        return len(st["seq"]) == s.bound
+    def complete(s, st): return len(st["seq"]) == s.bound
 
     def obj(s, st):
         q = st["seq"] if (s.kind != "pdp" or s.force) else (0,) + st["seq"]
         return -sum(s.D[q[i]][q[(i + 1) % len(q)]] for i in range(len(q)))
 
-    def canon(s, seq):
-        return tuple(seq[: s.bound])
+    def canon(s, seq): return tuple(seq[: s.bound])
 
 
 class MDCPDP(Oracle):
@@ -269,11 +249,8 @@ class MDCPDP(Oracle):
         s.kind, s.D, s.nd, s.na, s.h, s.cap, s.mode, s.w = "mdcpdp", D, nd, len(D), (len(D) - nd) // 2, cap, mode, w
         s.n, s.bound = len(D) - nd, len(D) + nd
 
-    def init(s):
-        return dict(cur=None, started=frozenset(), vis=frozenset(), carry=frozenset(), pos=None, rlen=0.0, lens=(), late=0.0, routes=(), slack=INF, why="")
-
-    def complete(s, st):
-        return len(st["vis"]) == s.n and len(st["started"]) == s.nd
+    def init(s): return dict(cur=None, started=frozenset(), vis=frozenset(), carry=frozenset(), pos=None, rlen=0.0, lens=(), late=0.0, routes=(), slack=INF, why="")
+    def complete(s, st): return len(st["vis"]) == s.n and len(st["started"]) == s.nd
 
     def step(s, st, a):
         st = dict(st)
@@ -297,8 +274,7 @@ class MDCPDP(Oracle):
             st["carry"], st["late"] = st["carry"] - {a - s.h}, st["late"] + st["rlen"]
         return dict(st, pos=a, vis=st["vis"] | {a}, routes=st["routes"][:-1] + (st["routes"][-1] + (a,),))
 
-    def finalize(s, st):
-        return "missing" if not s.complete(st) else s.step(st, st["cur"]) if st["cur"] is not None else st
+    def finalize(s, st): return "missing" if not s.complete(st) else s.step(st, st["cur"]) if st["cur"] is not None else st
 
     def obj(s, st):
         tot = sum(st["lens"])
@@ -308,8 +284,7 @@ class MDCPDP(Oracle):
         st = replay(s, seq, False)
         return ("invalid",) + tuple(seq) if isinstance(st, str) else frozenset(r for r in st["routes"] if len(r) > 1)
 
-    def forms(s, c):
-        return []
+    def forms(s, c): return []
 
     def explain(s, st, r):
         last = s.D[st["routes"][-1][-1]][st["routes"][-1][0]]
@@ -357,16 +332,10 @@ class Ctx:
         (s.rep.known if name in KNOWN else s.rep.violation)(name, what, {k: v for k, v in inp.items() if k != "at"})
 
 
-def slug(e):
-    return "-".join("".join(ch if ch.isalpha() else " " for ch in str(e).lower()).split()[:5]) or type(e).__name__
-
-
-def flat(x):
-    return x.reshape(x.shape[0], -1)[:, 0]
-
-
-def close(r, o):
-    return abs(r - o) <= 1e-4 * max(1.0, abs(o))
+def slug(e): return "-".join("".join(ch if ch.isalpha() else " " for ch in str(e).lower()).split()[:5]) or type(e).__name__
+def flat(x): return x.reshape(x.shape[0], -1)[:, 0]
+def close(r, o): return abs(r - o) <= 1e-4 * max(1.0, abs(o))
+def pick(xs, k): return xs if len(xs) <= k else [xs[i * (len(xs) - 1) // (k - 1)] for i in range(k)]  # k evenly spread elements
 
 
 def stepped(env, td, idx, acts):
@@ -468,7 +437,7 @@ def compare(cx, name, P, sols, inp, exact):
             continue
         hc = P.hidden_class(c)
         cls = "feasible-hidden" + hc if hc or not istight else f"exact-{why.replace('cap', 'fill')}-hidden"
-        cx.V(f"C05.{name}.{cls}", f"feasible solution (slack {slack:.3g} on '{why}', objective {o:.5f}) not reachable through the mask", **inp, actions=q)
+        cx.V(f"C05.{name}.{cls}{inp['at']}", f"feasible solution (slack {slack:.3g} on '{why}', objective {o:.5f}) not reachable through the mask", **inp, actions=q)
     sure = [(o, q) for o, slack, _, q in bf.values() if slack >= lo]
     got = [P.obj(replay(P, q)) for q in sols.values()]
     if sure and (not got or max(got) < max(sure)[0] - 1e-7):
@@ -479,11 +448,11 @@ def compare(cx, name, P, sols, inp, exact):
 def corrupt(cx, name, env, raw, P, feas, inp, budget):
     """C06: hand-built feasible solutions accepted, single-edit corruptions classified infeasible by the oracle rejected."""
     td0, seen, ends = env.reset(raw.clone()), set(), getattr(P, "ends", False)
-    for c in feas[:: max(1, len(feas) // budget)]:
+    for c in pick(feas, budget):
         for q in P.forms(c):
             cx.rep.case((name, inp["instance"], tuple(q), "hand-built"))
             check_accepts(cx, env, td0, [q], inp, f"C06.{name}.rejects-feasible")
-    for c in feas[:: max(1, 2 * len(feas) // budget)]:
+    for c in pick(feas, budget // 2):
         q, lo = (list(c), 1) if ends else (P.forms(c)[-1], 0)  # OP / PCTSP: edit the customer list, keep the single final return
         muts = [q[:i] + q[i + 1 :] for i in range(len(q))] + [q[:i] + [q[i + 1], q[i]] + q[i + 2 :] for i in range(len(q) - 1)]
         muts += [q[:i] + [a] + q[i + 1 :] for i in range(len(q)) for a in range(lo, P.na) if a != q[i]]
@@ -551,24 +520,11 @@ def joint(cx, name, env, items, tag, checker):
 
 
 # ----------------------------------------------------------------------------------------------------- instances
-def F(x):
-    return torch.tensor(x, dtype=torch.float32)[None]
-
-
-def I(x):
-    return torch.tensor([x])
-
-
-def L(t):  # float64 python values of a batch-1 tensor
-    return t[0].double().tolist()
-
-
-def dist(pts):
-    return [[math.hypot(p[0] - q[0], p[1] - q[1]) for q in pts] for p in pts]
-
-
-def TD(**kw):
-    return TensorDict(kw, batch_size=[1])
+def F(x): return torch.tensor(x, dtype=torch.float32)[None]
+def I(x): return torch.tensor([x])
+def L(t): return t[0].double().tolist()  # float64 python values of a batch-1 tensor
+def dist(pts): return [[math.hypot(p[0] - q[0], p[1] - q[1]) for q in pts] for p in pts]
+def TD(**kw): return TensorDict(kw, batch_size=[1])
 
 
 GRID = [[0, 0], [3 / 8, 0], [3 / 8, 4 / 8], [0, 4 / 8], [-3 / 8, 0], [-3 / 8, 4 / 8]]  # dyadic 3-4-5 grid: distances exact in float32
@@ -659,7 +615,7 @@ def main():
     sizes, ngen, nsolo = ((3, 4, 5), 8, 40) if thorough else ((3, 4), 3, 12)
     bound = (f"envs TSP ATSP CVRP CVRPTW SDVRP SVRP OP PCTSP SPCTSP PDP(free,forced start) mTSP(minmax,sum) MDCPDP({'minsum,minmax,lateness' + ',lateness_square' * thorough} x 1,2 depots) "
              f"MTVRP(cvrp,ovrp,vrpb,vrpl,vrptw,ovrpbltw); customers n in {sizes} (TSP/ATSP/mTSP n+1 nodes; PDP/MDCPDP n rounded down to even; SDVRP and MDCPDP only n<=4); "
-             f"per env config and n: 1-2 hand-made exact boundary instances + {ngen} generator instances (VERIF_SEED={args.seed}, CVRP-family/MTVRP generator capacity 12, VRPL limit "
+             f"per env config and n: 1-3 hand-made exact boundary instances + {ngen} generator instances (VERIF_SEED={args.seed}, CVRP-family/MTVRP generator capacity 12, VRPL limit "
              f"tightened to 2*max depot distance+0.4); per instance: ALL mask-admitted action sequences from reset (batched frontier, finished rows padded), brute-force oracle over ALL "
              f"sequences, <= {nsolo} solo replays, checker on all mask solutions, <= {nsolo} hand-built feasible solutions, all single-edit corruptions of <= {nsolo // 2} of them; per env "
              f"config and n: 4 mixed batches of 2-3 instances")
@@ -685,7 +641,7 @@ def main():
                     if checker:
                         corrupt(cx, name, env, raw, P, feas, inp, nsolo)
                     qs = sorted(sols.values(), key=len)
-                    for q in qs[:: max(1, len(qs) // nsolo)]:
+                    for q in pick(qs, nsolo):
                         joint(cx, name, env, [(raw, P, q, inp)], "solo", checker)
                     done += [(raw, P, qs, inp)] if qs else []
                 for grp in (done[-2:], done[:1] + done[-2:]):  # mixed batches: generator instances only / hand-made next to generator instances
